@@ -268,26 +268,43 @@ class Ctx:
         if len(self.samples) < 6:
             self.sample({"clause": clause, "case": cases[0]})
         all_fails = []
-        with cf.ProcessPoolExecutor(workers, mp_context=mp.get_context("spawn"), initializer=_winit, initargs=(threads,)) as ex:
-            futs = {ex.submit(_wrun, self.pid, self.tier, self.seed, clause, [cases[i] for i in ch]): ch for ch in chunks}
-            for fut in cf.as_completed(futs):
-                ch = futs[fut]
-                res = fut.result()
-                if res.get("error"):
-                    # re-run this chunk in-process so that the normal crash isolation applies
-                    self.per_clause[clause] -= len(ch)
-                    self.run(clause, [cases[i] for i in ch])
-                    continue
-                self.tick(len(ch))
-                self.states += res["states"]
-                self.transitions += res["transitions"]
-                self.traces += res["traces"]
-                for g, n in res["guards"].items():
-                    self.guard(g, n)
-                for cat, vals in res["outcomes"].items():
-                    for v in vals:
-                        self.outcome(cat, chash(v) if isinstance(v, (list, dict)) else v)
-                all_fails += [(ch[i], sig, msg) for (i, sig, msg) in res["fails"]]
+        pending = list(chunks)
+        nworkers = workers
+        while pending:
+            done_now, broken = [], False
+            with cf.ProcessPoolExecutor(nworkers, mp_context=mp.get_context("spawn"), initializer=_winit, initargs=(threads,)) as ex:
+                futs = {ex.submit(_wrun, self.pid, self.tier, self.seed, clause, [cases[i] for i in ch]): ch for ch in pending}
+                for fut in cf.as_completed(futs):
+                    ch = futs[fut]
+                    try:
+                        res = fut.result()
+                    except cf.process.BrokenProcessPool:
+                        broken = True  # a worker died (typically the out-of-memory killer); redo what is left with fewer workers
+                        continue
+                    done_now.append(ch)
+                    if res.get("error"):
+                        # re-run this chunk in-process so that the normal crash isolation applies
+                        self.per_clause[clause] -= len(ch)
+                        self.run(clause, [cases[i] for i in ch])
+                        continue
+                    self.tick(len(ch))
+                    self.states += res["states"]
+                    self.transitions += res["transitions"]
+                    self.traces += res["traces"]
+                    for g, n in res["guards"].items():
+                        self.guard(g, n)
+                    for cat, vals in res["outcomes"].items():
+                        for v in vals:
+                            self.outcome(cat, chash(v) if isinstance(v, (list, dict)) else v)
+                    all_fails += [(ch[i], sig, msg) for (i, sig, msg) in res["fails"]]
+            pending = [ch for ch in pending if ch not in done_now]
+            if pending and broken:
+                if nworkers == 1:
+                    raise HarnessError(f"worker processes keep dying while running clause {clause} (out of memory?)")
+                nworkers = max(1, nworkers // 2)
+                print(f"note: a worker process died; retrying {len(pending)} chunk(s) with {nworkers} worker(s)", flush=True)
+            elif pending:
+                raise HarnessError("run_parallel: chunks left without a broken pool")
         seen_here = set()
         for idx, sig, msg in sorted(all_fails):
             if sig in self.violations or sig in self.known_hits or sig in seen_here:
